@@ -152,6 +152,17 @@ def scenario(name, depth, fallback, encoding="utf-8"):
                 if late != DATA:
                     problems.append({"kind": "download", "step": "late-data-connection-relative-name", "got": repr(late)})
             await c.change_directory("/")
+        # 8c the tree operation on the working directory itself ("." and ""): the entry arrives under its own name
+        if name not in (".", ".."):
+            await c.change_directory(d)
+            for k, src in enumerate((".", "")):
+                await c.download(src, f"dl{k}", write_into=True)
+                top = [n for n in c.path_io.fs[0].content if n.name == f"dl{k}"]
+                got_names = sorted(n.name for n in top[0].content) if top else None
+                if got_names != [name]:
+                    problems.append({"kind": "download", "step": f"download-of-the-working-directory-{src!r}", "got": got_names,
+                                     "want": [name]})
+            await c.change_directory("/")
         # 8b another session sees and changes the same name; this session must see that at once
         c2 = a.Client(path_io_factory=a.MemoryPathIO, encoding=encoding)
         await c2.connect("127.0.0.1", 2121)
